@@ -1,4 +1,6 @@
 """C13: breadth-first visits give exact distances, once per node, under every schedule."""
+import os, collections
+import vlib
 from props import codec
 LEVEL = "proof"
 ASSUMPTIONS = [
@@ -14,7 +16,7 @@ ASSUMPTIONS = [
 
 ORACLE = {"struct", "levels", "pred", "fsize", "order", "revisit", "fresh", "perm", "len", "fused", "parent", "dist",
           "refusal", "status"}
-CORR = {"seqev", "parsched", "orderev", "rootsev"}
+CORR = {"seqev", "parsched", "orderev", "rootsev", "permev"}
 
 
 def nontrivial(case):
@@ -35,14 +37,32 @@ def fused_finding(case, failing):
 def run(ctx):
     quick = ctx["tier"] == "quick"
     # --maxn = number of nodes up to which ALL digraphs are enumerated; --count = random graphs
-    args = ["--maxn", "3" if quick else "4", "--count", "500" if quick else "6000"]
+    args = ["--maxn", "3" if quick else "4", "--count", "1500" if quick else "20000"]
     r = codec.run_simple("C13", ctx, "visit", args, oracle_aspects=ORACLE, corr_aspects=CORR, nontrivial=nontrivial,
                          timeout=3000)
-    # distribution by kind / pool size
+    # distribution by kind / pool size / graph size
+    try:
+        order, cases, _ = vlib.read_cases(os.path.join(vlib.RUNS, "C13_visit_%s.cases" % ctx["tier"]))
+        dist = collections.Counter()
+        for cid in order:
+            c = cases[cid]
+            dist["kind=" + c.get("kind", "?")] += 1
+            t = int(c.get("thr", "1"))
+            dist["threads=1" if t == 1 else "threads=2-4" if t <= 4 else "threads=5-16"] += 1
+            n = int(c.get("n", "0"))
+            dist["n<=4" if n <= 4 else "n<=30" if n <= 30 else "n<=100" if n <= 100 else "n<=300"] += 1
+            dist["visits=" + c.get("nv", "?")] += 1
+            if c.get("bv") == "1":
+                dist["graph=BvGraph"] += 1
+            if c.get("status", "ok") != "ok":
+                dist["refused-or-panicked"] += 1
+        r["distribution"] = dict(dist)
+    except Exception:
+        pass
     r["rule"] = ("all digraphs (with loops) on <= %d nodes x {Seq, ParFairPred, ParFairNoPred, ParLowMem, BfsOrder, "
-                 "BfsOrderFromRoots} plus random graphs to 300 nodes with many shared successors (layered, dense, hubs, "
+                 "BfsOrderFromRoots} plus the command-line `perm bfs` on compressed graphs plus random graphs to 300 nodes with many shared successors (layered, dense, hubs, "
                  "complete, fans), each with a sequence of 1-3 visits on the same visitor (reset or not), root multisets "
-                 "(duplicates, all nodes, empty), filters on node and distance, node/arc granularities, pools of 1..16 "
+                 "(duplicates, all nodes, empty), VecGraph or compressed BvGraph, filters on node and distance, node/arc granularities, pools of 1..16 "
                  "threads, yields/sleeps injected in callbacks and filters; one PRNG seeded by VERIF_SEED; non-trivial = "
                  "at least 2 nodes and one arc; distinct = different case line" % (3 if quick else 4))
     violations, known = codec.verdict("C13", r, known_matchers=[fused_finding])
